@@ -405,7 +405,36 @@ static void modeOpt(const Case& c)
     std::ostringstream os;
     os << "RES id=" << id << " ";
     try {
-        auto s = makeSolver(k);
+        std::unique_ptr<GMGPolar> s;
+        if (c.has("argv")) {
+            // the command-line path of src/main.cpp: default constructor + setParameters(argc, argv) (arguments separated by '|')
+            std::vector<std::string> args{"gmgpolar"};
+            {
+                std::istringstream is(c.str("argv"));
+                std::string a;
+                while (std::getline(is, a, '|'))
+                    args.push_back(a);
+            }
+            std::vector<char*> av;
+            for (auto& a : args)
+                av.push_back(a.data());
+            s = std::make_unique<GMGPolar>();
+            s->setParameters((int)av.size(), av.data());
+        }
+        else
+            s = makeSolver(k);
+        // what the object believes its options are (the getters), whichever way they were set
+        {
+            os << "g_abstol=" << dec(s->absoluteTolerance()) << " g_reltol=" << dec(s->relativeTolerance())
+               << " g_maxit=" << s->maxIterations() << " g_maxlev=" << s->maxLevels() << " g_pre=" << s->preSmoothingSteps()
+               << " g_post=" << s->postSmoothingSteps() << " g_fmg=" << s->FMG() << " g_fmgit=" << s->FMG_iterations()
+               << " g_extr=" << (int)s->extrapolation() << " g_cycle=" << (int)s->multigridCycle() << " g_fmgcycle=" << (int)s->FMG_cycle()
+               << " g_norm=" << (int)s->residualNormType() << " g_strat=" << (int)s->stencilDistributionMethod()
+               << " g_cc=" << s->cacheDensityProfileCoefficients() << " g_cg=" << s->cacheDomainGeometry() << " g_dirbc=" << s->DirBC_Interior()
+               << " g_threads=" << s->maxOpenMPThreads() << " g_tfactor=" << dec(s->threadReductionFactor()) << " g_R0=" << dec(s->R0())
+               << " g_Rmax=" << dec(s->Rmax()) << " g_nrexp=" << s->nr_exp() << " g_ntexp=" << s->ntheta_exp() << " g_aniso=" << s->anisotropic_factor()
+               << " g_div2=" << s->divideBy2() << " ";
+        }
         s->setup();
         if (c.has("stackfill"))
             dirtyStack(c.i("stackfill"));
